@@ -201,7 +201,11 @@ def r10_3(ctx):
             "value_integrator_root": "ca.kron(value[:, :self.N], DM.ones(1, self.M * self.degree))"}
     for nm, text in want.items():
         ds = [d for d in sc.defs.get(nm, []) if d.kind == "assign" and "kron" in ast.unparse(d.value)]
-        got = Norm(None).key(ds[0].value).replace("ca.", "") if ds else None
+        # the column-repeating form may be one branch of a conditional expression (per-column array vs constant guess)
+        leaf = ds[0].value if ds else None
+        while isinstance(leaf, ast.IfExp):
+            leaf = leaf.body if "kron" in ast.unparse(leaf.body) else leaf.orelse
+        got = Norm(None).key(leaf).replace("ca.", "") if leaf is not None else None
         ctx.check(len(ds) == 1 and got == Norm(None).key(ast.parse(text, mode="eval").body).replace("ca.", ""), "DirectCollocation.set_initial %s" % nm,
                   detail="columns tiled instead of repeated per interval (or final node missing)", expected=text, found=got, fi=f, sample={nm: got})
     tg = {"target_integrator": ("eval_at_integrator(stage, var, k, i)", ["N", "M"], True), "target_integrator_root": ("eval_at_integrator_root(stage, var, k, i, j)", ["N", "M", "d"], False)}
